@@ -14,7 +14,6 @@
    4. purely syntactic shape checks on the program and their conjunction cfg_ok, evaluated on gen_program. *)
 From Coq Require Import List String Bool Arith Lia.
 From Fsn Require Import CfgLang.
-From FsnGen Require Import GenCfg.
 Import ListNotations.
 Local Open Scope string_scope.
 Local Open Scope list_scope.
@@ -978,11 +977,8 @@ Proof. intros p H. apply discipline_ok_sound. now apply cfg_ok_discipline. Qed.
 (* ------------------------------------------------------------------------------------------------------------ *)
 (** * The generated program *)
 
-Example gen_cfg_ok : cfg_ok gen_program = true.
-Proof. vm_compute. reflexivity. Qed.
+(* the instantiation on the generated program is obl/OblCfg.v: this file does not depend on generated files *)
 
-Example gen_send_in_cs : send_in_cs gen_program = false.
-Proof. vm_compute. reflexivity. Qed.
 
 (* ------------------------------------------------------------------------------------------------------------ *)
 (** * The checks can fail: hand-written programs *)
@@ -1226,4 +1222,3 @@ Proof. vm_compute. reflexivity. Qed.
 
 Print Assumptions discipline_sound.
 Print Assumptions discipline_ok_sound.
-Print Assumptions gen_cfg_ok.
